@@ -46,6 +46,15 @@ MANIFEST = dict(
 TRUSTED_EXTRA = ["lean/EngineModel/Zlib/Inflate.lean as executable oracle for the framing"]
 
 
+# model regenerated from the C++ sources + its equality with the hand model (see props/_implgen.py)
+from props import _implgen
+LEAN_MODULES = LEAN_MODULES + _implgen.LEAN_MODULES
+THEOREMS = THEOREMS + _implgen.THEOREMS_FOR[ID]
+ASSUMPTIONS = ASSUMPTIONS + _implgen.ASSUMPTIONS
+TRUSTED_EXTRA = TRUSTED_EXTRA + _implgen.TRUSTED_EXTRA
+TRANSLATORS = dict(globals().get("TRANSLATORS", {}), **_implgen.TRANSLATORS)
+
+
 def H(lines, watchdog=20):
     sc = runner.shard(lines, NCPU)
     return [o for (outs, _) in runner.run_harness(sc, stateless=True, watchdog=watchdog) for o in outs]
